@@ -928,6 +928,21 @@ def name_form(name, form):
         return " " + name + " "
     if form == "suffixed":
         return name + ".npz"
+    if form in ("userpath", "userpath_npz", "userpathlib"):
+        # the user's OWN file, same stem as a shipped table, other numbers
+        import os
+        import pathlib
+        d = os.path.join(env.SCRATCH or ".", "userfilters")
+        os.makedirs(d, exist_ok=True)
+        ref = tables.reference_tables().get(name)
+        path = os.path.join(d, name + ".npz")
+        if ref is not None and not os.path.exists(path):
+            np.savez(path, **{k: v * 1.001 for k, v in ref.items()})
+        if form == "userpath":
+            return os.path.join(d, name)
+        if form == "userpath_npz":
+            return path
+        return pathlib.Path(path)
     return name
 
 
@@ -969,6 +984,14 @@ def do_restart(L, mod, recipe, step):
     raise ValueError(how)
 
 
+def permuted_view(t, dims):
+    """Same shape and values as t; memory laid out with two dimensions swapped."""
+    i, j = dims[0] % t.dim(), dims[1] % t.dim()
+    if i == j:
+        i, j = t.dim() - 1, t.dim() - 2
+    return t.transpose(i, j).contiguous().transpose(i, j)
+
+
 def freeze_pyramid(low, highs):
     def fz(t):
         if t is None:
@@ -988,15 +1011,11 @@ def thaw_pyramid(fr, contiguous=False):
         return t
     low = th(fr[0])
     highs = [th(f) for f in fr[1]]
-    if len(fr) > 3 and fr[3] and low.dim() >= 2 and not low.requires_grad and not contiguous:
-        low = low.transpose(-1, -2).contiguous().transpose(-1, -2)
+    # .clone() keeps the strides of dense permuted tensors, so the thawed copies
+    # have the memory layout the simulated call saw
     if contiguous:
         low = low.contiguous() if not low.requires_grad else low
         highs = [h.contiguous() if (h is not None and not h.requires_grad) else h for h in highs]
-    elif len(fr) > 4:
-        highs = [h.transpose(-1, -2).contiguous().transpose(-1, -2)
-                 if (nc and h is not None and not h.requires_grad) else h
-                 for h, nc in zip(highs, fr[4])]
     if len(fr) > 2 and fr[2]:
         highs = tuple(highs)
     leaves = [t for t in [low] + list(highs) if t is not None and t.requires_grad]
@@ -1043,11 +1062,12 @@ def build_pyramid(torch, fwd_family, outputs, op):
             highs.append(low.new_zeros([]))
         else:
             highs.append(cl(h, op.get("rg_high", False)))
+    vd = op.get("view_dims") or [-1, -2]
     if op.get("low_view") and low.dim() >= 2 and not low.requires_grad:
-        # same values, non-contiguous memory
-        low = low.transpose(-1, -2).contiguous().transpose(-1, -2)
+        # same values, non-contiguous memory (two dimensions swapped in memory)
+        low = permuted_view(low, vd)
     if op.get("high_view"):
-        highs = [h.transpose(-1, -2).contiguous().transpose(-1, -2)
+        highs = [permuted_view(h, vd)
                  if (h is not None and h.dim() >= 2 and not h.requires_grad) else h
                  for h in highs]
     if op.get("as_tuple"):
